@@ -91,6 +91,12 @@ type seFlushErr struct{ *seCore }
 
 func (f seFlushErr) FlushError() error { return f.flush() }
 
+// seBoth offers both, like net/http's response writer: the error-reporting method must be preferred
+type seBoth struct{ *seCore }
+
+func (f seBoth) Flush()            { _ = f.flush() }
+func (f seBoth) FlushError() error { return f.flush() }
+
 type sePlain struct{ *seCore } // cannot flush
 
 type seWrap struct {
@@ -106,6 +112,8 @@ func makeWriter(shape string, c *seCore) http.ResponseWriter {
 		return seFlusher{c}
 	case "flusherr":
 		return seFlushErr{c}
+	case "both":
+		return seBoth{c}
 	case "wrap1":
 		return seWrap{sePlain{c}, seFlushErr{c}}
 	case "wrap2":
